@@ -642,6 +642,8 @@ pub struct StepRec {
     pub events: Vec<Ev>,
     pub obs: String,
     pub disk: String,
+    /// identities `actor.thread@gate` of the threads that were enabled when the pick was made
+    pub enabled: Vec<String>,
 }
 
 pub struct Outcome2 {
@@ -808,6 +810,7 @@ async fn run_case_async(case: &Case, dir: &Path) -> Outcome2 {
             events: evs,
             obs: canon_obs(&storage),
             disk: disk_listing(dir),
+            enabled: vec![],
         });
         let mut guard = 0;
         loop {
@@ -884,6 +887,17 @@ async fn run_case_async(case: &Case, dir: &Path) -> Outcome2 {
                 }
             };
             let t = enabled[choice];
+            let enabled_ids: Vec<String> = with_state(|s| {
+                enabled
+                    .iter()
+                    .map(|i| {
+                        let th = &s.threads[*i];
+                        let g = th.gate.as_ref().unwrap();
+                        format!("{}.{}@{}", th.actor, th.idx, g.0)
+                    })
+                    .collect()
+            })
+            .unwrap();
             let pick = with_state(|s| {
                 let th = &mut s.threads[t];
                 let (name, _, tx) = th.gate.take().unwrap();
@@ -907,6 +921,7 @@ async fn run_case_async(case: &Case, dir: &Path) -> Outcome2 {
                 events: evs,
                 obs: canon_obs(&storage),
                 disk: disk_listing(dir),
+                enabled: enabled_ids,
             });
         }
         if out.deadlock.is_some() {
@@ -993,6 +1008,9 @@ pub fn render_trace(case: &Case, o: &Outcome2) -> String {
         }
         for e in &st.events {
             s.push_str(&format!(" (ev {} {} {} {})", e.actor, e.th, e.name, e.detail));
+        }
+        if !st.enabled.is_empty() {
+            s.push_str(&format!(" (en {})", st.enabled.join(" ")));
         }
         s.push_str(&format!(" (obs {}) (disk {}))", sanitize(&st.obs), sanitize(&st.disk)));
     }
